@@ -495,9 +495,8 @@ def check_types(g: Grammar) -> Dict[str, RuleType]:
         if r.kind != "rule":
             continue
         rt = types[r.name]
-        if r.has("memoize") or r.has("leftrec"):
-            if g.derives is not None and "Clone" not in g.derives:
-                raise Invalid("@memoize without Clone")
+        # (@memoize / @leftrec without Clone in the derive set is a documented restriction: the compiler must reject it;
+        #  the generator may produce such settings on purpose, so it is not treated as ill-formed here)
         for f in rt.fields:
             for t in f.types:
                 if t == "char":
